@@ -146,8 +146,10 @@ func doCall(cs *expCase, cl call, cache spec.ResolutionCache, budget int) (r cal
 	}
 	var out interface{}
 	var err error
-	verifrt.Steps = 0
-	verifrt.Budget = budget
+	if !cs.noGlobalLoader {
+		verifrt.Steps = 0
+		verifrt.Budget = budget
+	}
 	func() {
 		defer func() {
 			if p := recover(); p != nil {
@@ -224,7 +226,9 @@ func doCall(cs *expCase, cl call, cache spec.ResolutionCache, budget int) (r cal
 			panic("unknown entry point " + cl.Fn)
 		}
 	}()
-	verifrt.Budget = 0
+	if !cs.noGlobalLoader {
+		verifrt.Budget = 0
+	}
 	if err != nil {
 		r.Err = err.Error()
 	}
